@@ -411,6 +411,38 @@ func c09Sequences(p *c09PKI, pin string, thorough bool) CaseOut {
 			}
 		}
 	}
+	// chains: what a peer sends along with its certificate may complete a chain to the configured authority, it
+	// never becomes an authority itself — neither for this handshake nor for later ones through the same configuration
+	if pin == "sha256-hit" {
+		foreign := menu[3] // signed by the other authority
+		for _, role := range []string{"server", "client"} {
+			vt := netceptor.VerifyServer
+			if role == "client" {
+				vt = netceptor.VerifyClient
+			}
+			cfg := &tls.Config{RootCAs: p.pool, ClientCAs: p.pool}
+			f := netceptor.ReceptorVerifyFunc(cfg, nil, c09Expected, netceptor.ExpectedHostnameTypeReceptor, vt, quietLogger())
+			steps := []struct {
+				name string
+				raw  [][]byte
+				want bool
+			}{
+				{"leaf of the other authority alone", [][]byte{foreign.der}, false},
+				{"leaf of the other authority followed by that authority's certificate", [][]byte{foreign.der, p.otherCert.Raw}, false},
+				{"leaf of the other authority alone, afterwards", [][]byte{foreign.der}, false},
+				{"good leaf followed by the other authority's certificate", [][]byte{menu[0].der, p.otherCert.Raw}, true},
+				{"leaf of the other authority alone, once more", [][]byte{foreign.der}, false},
+				{"good leaf followed by the trusted authority's own certificate", [][]byte{menu[0].der, p.caCert.Raw}, true},
+			}
+			for _, st := range steps {
+				got := f(st.raw, nil) == nil
+				out.count("chain_decisions", 1)
+				if got != st.want {
+					out.violate(fmt.Sprintf("tls:chain:judged-%v-want-%v:%s", got, st.want, role), "role=%s: %s: accepted=%v", role, st.name, got)
+				}
+			}
+		}
+	}
 	// the same with real handshakes through the configurations receptor builds
 	if pin == "sha256-hit" || pin == "sha512-hit" || pin == "miss-then-hit" || thorough {
 		dir, _ := os.MkdirTemp(p.dir, "seq-")
